@@ -158,6 +158,23 @@ TEXT["C18"] = dict(
     design_ref="DESIGN.md §6a",
 )
 
+TEXT["C19"] = dict(
+    category="other",
+    technique="Kani/CBMC Hoare triples on the real PheromoneMatrix kernel + bounded native runs of the ant-colony components on small TSP instances",
+    text=("The matrix kernel is under contract: a fresh PheromoneMatrix holds the initial value everywhere, pm[i][j] reads and writes entry "
+          "(i, j) alone, rows have `dimension` entries, and `*pm *= f` (the evaporation step of both updates) multiplies EVERY trail by f "
+          "bit-exactly - checked by CBMC at dimension 2 (thorough: 3) over all finite entries for the factors {1, 0.5, 0.75, 0}. Tour "
+          "generation (one greedy tour plus the requested number of sampled tours, each a permutation of all cities starting at city 0) "
+          "and the ant-system / max-min updates (evaporate every trail, reinforce symmetrically exactly the rewarded tours' edges by an "
+          "amount inversely proportional to tour length, trails finite, non-negative and - max-min - within the bounds) live in "
+          "State-based bodies with iterator chains, powf and WeightedIndex sampling and are covered ONLY by bounded native runs, each "
+          "update compared with an independently computed expectation."),
+    note=("Level 'other'. Planned as not applicable; claimed thinly because the evaporation clause has a kernel-level contract. The native "
+          "run exposed that MinMaxPheromoneUpdate let un-rewarded trails fall below the lower bound (repaired). A symbolic evaporation "
+          "factor does not finish in CBMC (float multipliers)."),
+    design_ref="DESIGN.md §6a",
+)
+
 
 # ---- session-3 refinements, applied to the assembled strings (each `old` must occur: a stale patch is an error)
 _PATCHES = {
